@@ -481,7 +481,7 @@ def route_cases(tier):
 
 
 PARTS = [
-    Part("refusals", run_refusals, strategy=refusal_cases, n={"quick": 600, "thorough": 30000}),
-    Part("collision-routes", run_collision_routes, strategy=route_cases, n={"quick": 300, "thorough": 20000}),
-    Part("faults", run_faults, strategy=fault_cases, n={"quick": 80, "thorough": 3000}),
+    Part("refusals", run_refusals, strategy=refusal_cases, n={"quick": 600, "thorough": 100000}),
+    Part("collision-routes", run_collision_routes, strategy=route_cases, n={"quick": 300, "thorough": 60000}),
+    Part("faults", run_faults, strategy=fault_cases, n={"quick": 80, "thorough": 10000}),
 ]
